@@ -233,7 +233,13 @@ class Contract:
             tgt = vals.get(name)
             if isinstance(tgt, LRef):
                 shp = self.params[name]
+                # optional hook `modifies_arg_shape(name, lref, vals)`: the element shape of the havocked list follows
+                # the actual argument (a contract generic in the element type, e.g. run-length lists of any attribute type)
+                hook = getattr(self, "modifies_arg_shape", None)
+                if hook is not None:
+                    shp = hook(name, tgt, vals) or shp
                 tgt.seq = shp.fresh_seq(st, f"{name}'")
+                st.ghost.setdefault("lists_modified_by_callee", []).append(tgt)
         if self_obj is not None:
             self.havoc(st, self_obj)
             # the callee's contract speaks about the events of *this* call only
@@ -247,7 +253,12 @@ class Contract:
 
             result = uf_shape_value(st, f"fn:{self.target.split(':')[1]}", det_terms, self.result)
         else:
-            result = self.result.fresh(st, f"r_{f.ref.node.name}") if self.result is not None else None
+            rshape = self.result
+            rh = getattr(self, "result_shape", None)
+            if rh is not None:
+                # optional hook `result_shape(vals)`: the result's shape follows the actual arguments
+                rshape = rh(vals) or rshape
+            result = rshape.fresh(st, f"r_{f.ref.node.name}") if rshape is not None else None
         # the callee's contract speaks about the events of this call only: evaluate it over a local trace
         saved_global = st.trace
         st.trace = []
@@ -317,7 +328,7 @@ def contract(target, property=None, **kw):  # noqa: A002
         ns.update(kw)
         ns["target"] = target
         ns["property"] = property
-        for fn in ("requires", "ensures", "on_raise", "pure_spec", "native_call", "make_self", "observe", "effects", "invariant", "ensures_callee", "on_raise_callee", "effects_raise", "setup", "call_real", "missing_field", "comprehension_sum", "decode_model", "decreases", "binop", "cover_witness"):
+        for fn in ("requires", "ensures", "on_raise", "pure_spec", "native_call", "make_self", "observe", "effects", "invariant", "ensures_callee", "on_raise_callee", "effects_raise", "setup", "call_real", "missing_field", "comprehension_sum", "decode_model", "decreases", "binop", "cover_witness", "modifies_arg_shape", "result_shape"):
             if fn in ns and inspect.isfunction(ns[fn]):
                 ns[fn] = staticmethod(ns[fn])
         C = type(cls.__name__, (Contract,), ns)
@@ -388,6 +399,11 @@ class VerifyTask:
 
     # ---- services for the interpreter
     def contract_for(self, key, f):
+        # `contract_overrides` of the contract under verification: callee contracts that replace the registered
+        # ones for this task only (e.g. a callee described over the real fields instead of the protocol model)
+        ov = getattr(self.c, "contract_overrides", None)
+        if ov and key in ov:
+            return ov[key]
         c = REGISTRY.get(key)
         return c
 
